@@ -193,13 +193,17 @@ func (r *rend) String() string {
 					case r.st.R == nil:
 						b.WriteString(" \t\n")
 					default:
-						switch r.st.R.Intn(4) {
+						switch r.st.R.Intn(6) {
 						case 0:
 							b.WriteString("  ")
 						case 1:
 							b.WriteString("\t")
 						case 2:
 							b.WriteString("\n")
+						case 3:
+							b.WriteString("\r\n") // a file with CRLF line ends
+						case 4:
+							b.WriteString("\r")
 						default:
 							b.WriteString(" \n\t ")
 						}
